@@ -15,6 +15,7 @@
 #include <Eigen/SparseCholesky>
 
 #include "../SymGEigsSolver.h"
+#include "../Util/VerifHooks.h"
 
 namespace Spectra {
 
@@ -82,6 +83,9 @@ namespace Spectra {
 template <typename Scalar = long double>
 class LOBPCGSolver
 {
+#ifdef SPECTRA_VERIF
+    friend struct ::SpectraVerifAccess;
+#endif
 private:
     typedef Eigen::Matrix<Scalar, Eigen::Dynamic, Eigen::Dynamic> Matrix;
     typedef Eigen::Matrix<Scalar, Eigen::Dynamic, 1> Vector;
